@@ -678,7 +678,7 @@ def _gen_clippath(draw, cx):
 
 
 def _gen_gradient(draw, cx):
-    gid = cx.new_id(draw(st.sampled_from(["grad", "g_", "lg"])))
+    gid = cx.new_id(draw(st.sampled_from(["grad", "g_", "lg", "verlauf-gr\u00fcn", "\u0433\u0440\u0430\u0434_"])))  # ids are XML names: letters beyond ASCII are legal
     kind = draw(st.sampled_from(["linearGradient", "linearGradient", "radialGradient"]))
     a = {"id": gid}
     box = cx.box
